@@ -508,6 +508,12 @@ class Exec(Engine):
                 st = st.copy()
                 st.assume(z3.ForAll([k], z3.Implies(z3.And(0 <= k, k < n.n), a2[k] == n.a[n.n - 1 - k])))
                 return [Result(st, st.alloc(Arr(n.elem, a2, n.n, n.flavour)))]
+            if lo is None and hi is None:
+                # x[:] : a copy of the whole sequence - a new node with the same contents term (no quantified axiom)
+                st = st.copy()
+                ref = st.alloc(Arr(n.elem, n.a, n.n, n.flavour))
+                st.node(ref).slice_of = (n.a, z3.IntVal(0), n.n)
+                return [Result(st, ref)]
             lo_c, hi_c, ln = self.slice_bounds(st, n, lo, hi, line)
             # numpy basic slices are views; modelled as a fresh array holding a copy
             # (sound for the verified functions: they never write through both names
